@@ -34,6 +34,11 @@ type Phase struct {
 	Batch int
 	// Serial phases run one child at a time (they use all cores themselves).
 	Serial bool
+	// RaceInfoOnly: the phase runs under the race detector only to make
+	// crashes such as concurrent map access more likely to surface; data-race
+	// reports are counted in the evidence but are not violations of this
+	// property (they belong to C13).
+	RaceInfoOnly bool
 }
 
 type Prop struct {
